@@ -124,7 +124,7 @@ def run(pid, tier, seed, replay):
     ck.coverage.update({
         "evaluations": len(cases),
         "distinct_nontrivial": len(nt),
-        "rule": "plans: C01-generator SQL (19 streams), a 57-statement SQL corpus (joins of every kind incl. semi/anti/mark, aggregates, grouping sets, "
+        "rule": "plans: C01-generator SQL (19 streams), a 58-statement SQL corpus (joins of every kind incl. semi/anti/mark, aggregates, grouping sets, "
                 "windows, unnest, limits/offsets, set operations) under 9 option sets x target_partitions {1,2,3,4} x batch_size {1,2,3,8192}, and randomly "
                 "composed operator trees (depth 1-4) of filter / projection / local+global limit with skip / sort with fetch / sort-preserving merge / "
                 "repartition round-robin, hash, order-preserving / coalesce batches, partitions / union / hash join CollectLeft, Partitioned / sort-merge / "
